@@ -68,6 +68,7 @@ struct Plan {
         std::vector<Op> ops;
 };
 std::string plan_to_json(const Plan &p);
+int direct_misuse_count(); // number of entries in the direct-API misuse catalogue (ops_dmisuse.inc)
 bool plan_from_json(const std::string &txt, Plan &p, std::string *err = nullptr);
 
 struct Violation {
